@@ -43,7 +43,7 @@ def expected_scheme(model, pt, dt, scheme, delta=1e-8, stiff=None, counters=None
     return out
 
 
-def compare_slots(prop, mod, fname, index_kind, expected, pt, dt=None, missing=None, shim_mod=None, counters=None, ctx=None, call_kw=None, K=64.0):
+def compare_slots(prop, mod, fname, index_kind, expected, pt, dt=None, missing=None, shim_mod=None, counters=None, ctx=None, call_kw=None, K=64.0, classify_rounding=True):
     """call mod.fname at pt and compare the slots of `expected` (name -> RE).
     shim_mod: a PyMod whose emitted source is re-evaluated at 256 bits to classify a float
     disagreement (defaults to mod itself if it can)."""
@@ -68,6 +68,8 @@ def compare_slots(prop, mod, fname, index_kind, expected, pt, dt=None, missing=N
             continue
         rounding = False
         sm = shim_mod if shim_mod is not None else (mod if hasattr(mod, "shim_call") else None)
+        if not classify_rounding:
+            sm = None
         if sm is not None:
             try:
                 if hv_all is None:
